@@ -19,7 +19,7 @@ func init() { core.Register(c19{}) }
 func (c19) ID() string    { return "C19" }
 func (c19) Level() string { return "exploration" }
 func (c19) Rule() string {
-	return "(a) totality: component_definition.NewProperty is called under recover() on seeded arbitrary byte strings (uniform bytes; strings over the grammar's own alphabet ',= [](){}:$#\"' and letters; structured tags mutated by byte insertion / deletion / duplication / bracket unbalancing), 64 strings per case; every accessor (TagVal, Args().Find/Has/String, IsRequired) is exercised too. (b) faithfulness: structured tags 'v,n1=a b,n2=[x,y] z,...' generated from a grammar (value with optional bracketed groups / placeholders with defaults, 0..5 uniquely named arguments, items that are plain tokens or balanced bracket groups containing commas and spaces) are parsed by an independent reference parser (depth-counting scanner); TagVal must equal the text before the first top-level comma, Find(name) and Find(Title(name)) must return the items, bracketed groups must be intact; IsRequired() must be false iff an explicit required=false / Required=false item is present. (c) end-to-end: reflect.StructOf holders carrying generated wire / value / prop tags with extra arguments are started on the real container and must behave as the parsed arguments say (optional vs required unsatisfiable points; prop shorthand with bracketed defaults). non-trivial = structured tag with >= 2 arguments and a bracketed group, or a mutated string that still parses to >= 1 argument; distinct = the tag string; isolated family: a user post-processor relaxing its own tag's points via SetArg must not relax a point of another tag with the byte-identical tag value, in this or later starts; empty argument items and empty-valued known arguments end-to-end; AddArg / SetArg under either spelling of the key; empty value part followed by arguments end-to-end; formatting the property between parsing and reading; crowd family: 6..25 components with prop tags in one application, every point bound per its own tag"
+	return "(a) totality: component_definition.NewProperty is called under recover() on seeded arbitrary byte strings (uniform bytes; strings over the grammar's own alphabet ',= [](){}:$#\"' and letters; structured tags mutated by byte insertion / deletion / duplication / bracket unbalancing), 64 strings per case; every accessor (TagVal, Args().Find/Has/String, IsRequired) is exercised too. (b) faithfulness: structured tags 'v,n1=a b,n2=[x,y] z,...' generated from a grammar (value with optional bracketed groups / placeholders with defaults, 0..5 uniquely named arguments, items that are plain tokens or balanced bracket groups containing commas and spaces) are parsed by an independent reference parser (depth-counting scanner); TagVal must equal the text before the first top-level comma, Find(name) and Find(Title(name)) must return the items, bracketed groups must be intact; IsRequired() must be false iff an explicit required=false / Required=false item is present. (c) end-to-end: reflect.StructOf holders carrying generated wire / value / prop tags with extra arguments are started on the real container and must behave as the parsed arguments say (optional vs required unsatisfiable points; prop shorthand with bracketed defaults). non-trivial = structured tag with >= 2 arguments and a bracketed group, or a mutated string that still parses to >= 1 argument; distinct = the tag string; isolated family: a user post-processor relaxing its own tag's points via SetArg must not relax a point of another tag with the byte-identical tag value, in this or later starts; empty argument items and empty-valued known arguments end-to-end; AddArg / SetArg under either spelling of the key; empty value part followed by arguments end-to-end; formatting the property between parsing and reading; crowd family: 6..25 components with prop tags in one application, every point bound per its own tag; configuredCommas family (configured texts containing commas / name=value pieces are data); values that look like arguments"
 }
 func (c19) Assumptions() []string {
 	return []string{
@@ -475,7 +475,57 @@ func (p c19) emptyValue(c *core.Ctx) {
 	c.Nontrivial("emptyvalue:" + tag + fmt.Sprint(withConfig))
 }
 
+// configuredCommas: the tag grammar applies to what is written in the tag. A configured text (or a
+// placeholder default's replacement) that happens to contain commas and "name=value" pieces is data: it is
+// bound as a whole, and it cannot make a point optional.
+func (p c19) configuredCommas(c *core.Ctx) {
+	txt := []string{"hello, world", "left,right", "x,required=false", "a,b,c=d e"}[c.Rng.Intn(4)]
+	wname := []string{"no-such-component,required=false", "absent,Required=false"}[c.Rng.Intn(2)]
+	doc := fmt.Sprintf("c19:\n  text: %q\n  w: %q\n", txt, wname)
+	variant := c.Rng.Intn(3)
+	fields := []world.FieldSpec{{Name: "S", Type: reflect.TypeOf(""), Tag: []string{`value:"${c19.text}"`, `prop:"c19.text"`}[c.Rng.Intn(2)]}}
+	if variant == 1 {
+		// a by-name point whose name comes from the configuration: no component carries that name, and nothing in
+		// the tag says required=false
+		fields = append(fields, world.FieldSpec{Name: "W", Type: world.TypeIA, Tag: `wire:"${c19.w}"`})
+	}
+	if variant == 2 {
+		fields = append(fields, world.FieldSpec{Name: "N", Type: reflect.TypeOf(0), Tag: `value:"${c19.none:},validate=required"`})
+	}
+	h := world.NewHolder(world.BuildStruct(fields))
+	r := world.Start(&world.Scenario{Config: doc}, world.Options{Extra: []any{h}, NoTracer: true})
+	c.Count("e2e_starts", 1)
+	c.Count("configured_comma_starts", 1)
+	detail := map[string]any{"config": doc, "fields": fmt.Sprint(fields), "outcome": core.Short(r.OutcomeDetail(), 300)}
+	if abnormal(r.Outcome()) {
+		c.Fail("", "configured text with commas: "+r.OutcomeDetail(), detail)
+		return
+	}
+	switch variant {
+	case 0:
+		if got := reflect.ValueOf(h).Elem().Field(0).String(); r.Outcome() != "ok" || got != txt {
+			c.Fail("", fmt.Sprintf("%s with the configured text %q: outcome %s, the field holds %q", fields[0].Tag, txt, r.Outcome(), got), detail)
+			return
+		}
+	case 1:
+		if r.Outcome() != "error" {
+			c.Fail("", fmt.Sprintf("`wire:\"${c19.w}\"` with c19.w=%q: no component carries that name and the tag does not say required=false, but the start succeeded", wname), detail)
+			return
+		}
+	case 2:
+		if r.Outcome() != "error" {
+			c.Fail("", "`value:\"${c19.none:},validate=required\"` (nothing configured, empty default): the start succeeded", detail)
+			return
+		}
+	}
+	c.Nontrivial(fmt.Sprintf("cfgcomma|%d|%s|%s", variant, txt, wname))
+}
+
 func (p c19) e2e(c *core.Ctx) {
+	if c.Index%5 == 3 && c.Index%3 == 0 {
+		p.configuredCommas(c)
+		return
+	}
 	if c.Index%5 == 1 && c.Index%3 == 0 {
 		p.crowd(c)
 		return
